@@ -12,6 +12,7 @@ import (
 	"net/http/httptest"
 	"sort"
 	"strings"
+	"tkestack.io/galaxy/pkg/ipam/crd"
 
 	"github.com/emicklei/go-restful"
 	"github.com/prometheus/client_golang/prometheus"
@@ -21,13 +22,13 @@ import (
 	"tkestack.io/galaxy/pkg/api/k8s/schedulerapi"
 	"tkestack.io/galaxy/pkg/ipam/api"
 	"tkestack.io/galaxy/pkg/ipam/apis/galaxy/v1alpha1"
+	galaxyinformer "tkestack.io/galaxy/pkg/ipam/client/informers/externalversions/galaxy/v1alpha1"
 	"tkestack.io/galaxy/pkg/ipam/cloudprovider/rpc"
 	ipamcontext "tkestack.io/galaxy/pkg/ipam/context"
 	"tkestack.io/galaxy/pkg/ipam/floatingip"
 	"tkestack.io/galaxy/pkg/ipam/schedulerplugin"
 	"tkestack.io/galaxy/verifsim/core"
 	"tkestack.io/galaxy/verifsim/kubeclient"
-	galaxyinformer "tkestack.io/galaxy/pkg/ipam/client/informers/externalversions/galaxy/v1alpha1"
 )
 
 // Instance is one incarnation of galaxy-ipam. Its fields are written by the init task and read by tasks that
@@ -106,7 +107,9 @@ func startInstance(inst *Instance, withCloud bool, resyncMinutes uint) {
 	if err != nil {
 		panic(err)
 	}
-	plugin.VerifSetCrdCache(kubeclient.CrdCache{})
+	// the real pkg/ipam/crd cache (lazy informer per custom resource, first sync awaited under its lock) on a
+	// simulated informer factory
+	plugin.VerifSetCrdCache(crd.VerifNewCrdCache(kubeclient.NewDynFactory(), kubeclient.CRDLister{}))
 	if withCloud {
 		plugin.VerifSetCloudProvider(simCloud{})
 	}
@@ -249,16 +252,16 @@ func fipEventTask(inst *Instance, typ string, oldJSON, newJSON []byte) {
 
 // memEntry is one row of the in-memory allocation table as seen through the public IPAM interface.
 type memEntry struct {
-	IP     string `json:"ip"`
-	Key    string `json:"key"`
-	Policy uint16 `json:"policy"`
-	Node   string `json:"node"`
-	UID    string `json:"uid"`
-	Labels bool   `json:"reserved"`
+	IP      string   `json:"ip"`
+	Key     string   `json:"key"`
+	Policy  uint16   `json:"policy"`
+	Node    string   `json:"node"`
+	UID     string   `json:"uid"`
+	Labels  bool     `json:"reserved"`
 	Subnets []string `json:"subnets"`
-	Mask   string `json:"mask"`
-	Gw     string `json:"gw"`
-	Vlan   uint16 `json:"vlan"`
+	Mask    string   `json:"mask"`
+	Gw      string   `json:"gw"`
+	Vlan    uint16   `json:"vlan"`
 }
 
 // dumpTask reports the in-memory table (ByPrefix("")) to the world.
